@@ -53,6 +53,7 @@ func scC07(r *Run) {
 			armed += " " + s
 		}
 	}
+	r.Arm("rotate.afterBroadcast") // see sc_c06.go: keeps multi-rotation writes repeatable
 	// when is Close called: before data, early, mid-stream
 	closeAfter := 0
 	switch T.Intn(4) {
